@@ -212,6 +212,7 @@ def o4_o5(prog, rep):
     gp = u.func("growpollfd")
     z = {fieldname(norm(e.kid(0))): norm(e.kid(1)) for e in gp.all_elems() if e.is_assign and e.op == "=" and fieldname(norm(e.kid(0))) in ("events", "revents")}
     rep.check(z == {"events": ("c", 0), "revents": ("c", 0)}, "O5-stale", "a new pollfd starts with events = revents = 0", gp.loc, "%s" % z, function="growpollfd", construct="init")
+    o5_map(u, rep, gp, cb)
     g = u.func("events_network_get")
     wid = [e for e in g.all_elems() if e.is_assign and e.op == "|=" and fieldname(norm(e.kid(0))) == "revents"]
     ok = len(wid) == 1 and fieldname(norm(wid[0].kid(1))) == "events" and norm(wid[0].kid(1))[1] == norm(wid[0].kid(0))[1]
@@ -438,6 +439,196 @@ def o6_double(prog, rep):
               function=f.name, construct="double-conversion")
 
 
+def o5_map(u, rep, gp, cb):
+    """The table of descriptors and the poll array point at each other (the unit's invariant 1): S[fd].pollpos == j exactly
+    when fds[j].fd == fd, j < nfds.  Decided on the three places that change either side:
+    - a table record created by growing the table starts with no registration and no poll entry (every field of the record
+      is given its empty value for every new index);
+    - growpollfd writes the descriptor into fds[nfds], records nfds as that descriptor's position, and only then counts it;
+    - clearbit, when it vacates an entry, unlinks the vacated descriptor, and after moving the last entry in, records the slot
+      as the moved descriptor's position, before the count goes down."""
+    def recfield(t):
+        """(index term, field) of socketlist_get(S, i)->field"""
+        if t[0] == "." and t[1][0] == "*" and t[1][1][0] == "call" and t[1][1][1] == "socketlist_get" and len(t[1][1]) >= 4:
+            return t[1][1][3], t[2]
+        return None
+    # new table records
+    gs = [f for f in u.funcs if f.file == u.path and any(True for _ in f.calls("socketlist_resize"))]
+    rt = None
+    for name, r in u.records.items():
+        if set(x["name"] for x in r.get("fields", [])) >= {"reader", "writer", "pollpos"}:
+            rt = r
+    if len(gs) != 1 or rt is None:
+        rep.defer_broken("O5-map: the table-growing helper or the table's record type was not found in events_network.c")
+        return
+    f = gs[0]
+    init = {}
+    for e in f.all_elems():
+        if e.is_assign and e.op == "=":
+            rf = recfield(norm(e.kid(0)))
+            if rf is not None:
+                init[rf[1]] = (norm(e.kid(1)), rf[0], e)
+    want = {}
+    for x in rt["fields"]:
+        k = (u.types.get(x["ty"]) or {}).get("kind")
+        want[x["name"]] = ("c", 0) if k == "ptr" else ("c", -1)
+    bad = []
+    for fld, v in want.items():
+        if fld not in init:
+            bad.append("%s is left as realloc returned it" % fld)
+        elif init[fld][0] != v and not (v == ("c", -1) and init[fld][0][0] == "c" and init[fld][0][1] in (-1, 2 ** 64 - 1, 2 ** 32 - 1)):
+            bad.append("%s starts as %s" % (fld, show(init[fld][0])))
+    idx = set(v[1] for v in init.values())
+    if len(idx) > 1:
+        bad.append("the fields are initialised at different indices %s" % sorted(show(i) for i in idx))
+    rep.check(not bad, "O5-map", "%s: a new table record starts empty (no reader, no writer, no poll entry)" % f.name, f.loc,
+              "; ".join(bad) + ": the record of a descriptor never registered would look registered", function=f.name, construct="newrec-init")
+    # the loop covers [old size, new size)
+    if idx:
+        i = sorted(idx, key=str)[0]
+        starts = [e for e in f.all_elems() if e.is_assign and e.op == "=" and norm(e.kid(0)) == i and norm(e.kid(1))[0] == "call" and norm(e.kid(1))[1] == "socketlist_getsize"]
+        steps = [e for e in f.all_elems() if e.is_incdec and norm(e.kid(0)) == i and e.op in ("post++", "pre++")]
+        nrec = None
+        for c in f.calls("socketlist_resize"):
+            nrec = norm(c.arg(1)) if c.arg(1) is not None else None
+        any_init = list(init.values())[0][2]
+        guard = [(op, L, R) for cond, truth in f.edge_conds(any_init) for op, L, R, _, _ in cond_atoms(cond, truth)]
+        ok = len(starts) == 1 and len(steps) == 1 and nrec is not None and any(op == "<" and L == i and R == nrec for op, L, R in guard)
+        rep.check(ok, "O5-map", "%s: the initialisation runs over every new index, old size to new size" % f.name, f.loc,
+                  "start: %s, step: %s, bound: %s" % ([e.text for e in starts], [e.text for e in steps], [(op, show(L), show(R)) for op, L, R in guard]),
+                  function=f.name, construct="newrec-range")
+    # growpollfd
+    fdw = [e for e in gp.all_elems() if e.is_assign and e.op == "=" and fieldname(norm(e.kid(0))) == "fd" and norm(e.kid(0))[1][0] == "[]"]
+    pw = [(e, recfield(norm(e.kid(0)))) for e in gp.all_elems() if e.is_assign and e.op == "=" and recfield(norm(e.kid(0))) and recfield(norm(e.kid(0)))[1] == "pollpos"]
+    inc = [e for e in gp.all_elems() if e.is_incdec and norm(e.kid(0))[0] == "v" and norm(e.kid(0))[1] == "nfds"]
+    ok = len(fdw) == 1 and len(pw) == 1 and len(inc) == 1
+    why = "writes of .fd: %d, of ->pollpos: %d, increments of nfds: %d" % (len(fdw), len(pw), len(inc))
+    if ok:
+        slot = norm(fdw[0].kid(0))[1][2]
+        fdv = norm(fdw[0].kid(1))
+        pe, (pidx, _) = pw[0]
+        same_fd = strip_casts(fdv) == strip_casts(pidx)
+        ok = slot[0] == "v" and slot[1] == "nfds" and norm(pe.kid(1)) == slot and same_fd and gp.dominates(fdw[0], inc[0]) and gp.dominates(pe, inc[0])
+        why = "fds[%s].fd = %s; record(%s)->pollpos = %s; then nfds++" % (show(slot), show(fdv), show(pidx), show(norm(pe.kid(1))))
+    rep.check(ok, "O5-map", "growpollfd links the new poll entry and the descriptor's record to each other before counting the entry", gp.loc, why,
+              function="growpollfd", construct="link")
+    # clearbit
+    pws = [(e, recfield(norm(e.kid(0)))) for e in cb.all_elems() if e.is_assign and e.op == "=" and recfield(norm(e.kid(0))) and recfield(norm(e.kid(0)))[1] == "pollpos"]
+    dec = [e for e in cb.all_elems() if e.is_incdec and norm(e.kid(0))[0] == "v" and norm(e.kid(0))[1] == "nfds" and e.op in ("post--", "pre--")]
+    mv = [c for c in cb.calls("memcpy")] + [e for e in cb.all_elems() if e.is_assign and e.op == "=" and norm(e.kid(0))[0] == "[]" and norm(e.kid(1))[0] == "[]"]
+    pp = ("v", cb.params[0]["name"], cb.params[0]["id"]) if cb.params else None
+    unl = [e for e, (ix, _) in pws if norm(e.kid(1))[0] == "c" and norm(e.kid(1))[1] in (-1, 2 ** 64 - 1)]
+    rel = [e for e, (ix, _) in pws if norm(e.kid(1)) == pp]
+    ok = len(unl) == 1 and len(rel) == 1 and len(dec) == 1 and bool(mv)
+    why = "unlink writes: %d, re-link writes: %d, decrements: %d, moves: %d" % (len(unl), len(rel), len(dec), len(mv))
+    if ok:
+        m0 = mv[0]
+        def at_slot(e):
+            ix = recfield(norm(e.kid(0)))[0]
+            return any(t == ("[]", ("v", "fds", t[1][2] if len(t[1]) > 2 else None), pp) or (t[0] == "[]" and t[1][0] == "v" and t[1][1] == "fds" and t[2] == pp) for t in subterms(ix) if isinstance(t, tuple) and t and t[0] == "[]")
+        ok = at_slot(unl[0]) and at_slot(rel[0]) and cb.dominates(unl[0], m0) and cb.dominates(m0, rel[0]) and cb.dominates(unl[0], dec[0]) and \
+            not (dec[0].block.id in cb.reach_from(rel[0].block.id) and False)
+        # the re-link is made before the count goes down (the moved entry is fds[nfds - 1] only until then)
+        ok = ok and (rel[0].block.id != dec[0].block.id or rel[0].i < dec[0].i) and dec[0].block.id in (cb.reach_from(rel[0].block.id) | {rel[0].block.id})
+        why = "unlink of fds[%s].fd's record at line %d, move at line %d, re-link at line %d, nfds-- at line %d" % (show(pp), unl[0].line, m0.line, rel[0].line, dec[0].line)
+    rep.check(ok, "O5-map", "clearbit unlinks the vacated descriptor, moves the last entry in, and records the slot as the moved descriptor's position", cb.loc, why,
+              function="clearbit", construct="relink")
+
+
+def strip_casts(t):
+    while isinstance(t, tuple) and t and t[0] == "cast":
+        t = t[-1]
+    return t
+
+
+def o8_capacity(prog, rep):
+    """The poll array never holds more entries than it has room for.  With the unit's invariant nfds <= fds_alloc assumed at entry
+    (it holds initially: both are zero), decided relationally (sa/poly.py) in the function that adds an entry:
+    - every sanity assertion about the two counters is implied by the code before it (so it never fires), and every fds[i] written
+      has i < fds_alloc;
+    - the invariant holds again at every return;
+    - the recorded capacity is the one obtained: fds_alloc is assigned the element count whose size was given to realloc, on
+      realloc's success edge only, and the array pointer is replaced by realloc's result."""
+    from .. import poly
+    from ..poly import Lin
+    u = prog.unit("events/events_network.c")
+    gl = {x["name"]: ("v", x["name"], x["id"]) for x in u.globals if x.get("isdef") and x.get("file") == u.path}
+    if not all(k in gl for k in ("nfds", "fds_alloc", "fds")):
+        rep.defer_broken("O8-capacity: the poll array, its count or its capacity was not found at file scope in events_network.c")
+        return 0
+    NF, FA, FDS = gl["nfds"], gl["fds_alloc"], gl["fds"]
+    adders = [f for f in u.funcs if f.file == u.path and any(e.is_incdec and norm(e.kid(0)) == NF and e.op in ("post++", "pre++") for e in f.all_elems())]
+    if len(adders) != 1:
+        rep.defer_broken("O8-capacity: expected exactly one function that counts a new poll entry, found %d" % len(adders))
+        return 0
+    f = adders[0]
+    n = 0
+    A = poly.Analysis(f, assume=[("<=", Lin.var(NF), Lin.var(FA))], unsigned_terms={NF, FA}, quiet={"socketlist_get", "realloc"}).run()
+    esz = (u.records.get("pollfd") or {}).get("size") or 8
+    for b in f.blocks.values():
+        if b.cond is None or len(b.succs) != 2:
+            continue
+        tg = [f.blocks[x] for x in b.succs if x is not None]
+        if not any(t.noreturn or any(e.cls == "CallExpr" and e.callee == "__assert_fail" for e in t.elems) for t in tg):
+            continue
+        ats = [(op, L, R, Le, Re) for op, L, R, Le, Re in cond_atoms(b.cond, True) if {NF, FA} & (set(subterms(L)) | set(subterms(R)))]
+        if not ats:
+            continue
+        st = A.state_before(b.cond)
+        if st is None:
+            continue
+        op, L, R, Le, Re = ats[0]
+        l = A.lin(Le, st)
+        r = A.lin(Re, st) if Re is not None else Lin.const(0)
+        n += 1
+        rep.check(l is not None and r is not None and A.holds(st, op, l, r), "O8-capacity", "%s: `%s` follows from the code before it" % (f.name, b.cond.text[:40]), b.cond.where,
+                  "assuming nfds <= fds_alloc on entry, the asserted relation is not implied here: the assertion can fire (or, compiled out, the entry is written "
+                  "outside the array)", function=f.name, construct="assert-proved")
+    for e in f.all_elems():
+        if e.is_assign and norm(e.kid(0))[0] == "." and norm(e.kid(0))[1][0] == "[]" and norm(e.kid(0))[1][1] == FDS:
+            st = A.state_before(e)
+            ix = e.kid(0).strip()
+            sub = None
+            for t in subterms(norm(e.kid(0))):
+                if isinstance(t, tuple) and t and t[0] == "[]" and t[1] == FDS:
+                    sub = t[2]
+            n += 1
+            ok = st is None
+            if st is not None and sub is not None and sub[0] == "v":
+                ok = A.holds(st, "<", Lin.var(sub), Lin.var(FA))
+            rep.check(ok, "O8-capacity", "%s: %s is written inside the array" % (f.name, e.text[:30]), e.where,
+                      "index %s is not provably below fds_alloc" % show(sub), function=f.name, construct="write-index")
+    for r in f.returns():
+        st = A.state_before(r)
+        if st is None:
+            continue
+        n += 1
+        rep.check(A.holds(st, "<=", Lin.var(NF), Lin.var(FA)), "O8-capacity", "%s: nfds <= fds_alloc again at `%s`" % (f.name, r.text[:20]), r.where,
+                  "the invariant assumed at entry is not re-established here", function=f.name, construct="inv-return")
+    # the capacity recorded is the capacity obtained
+    rl = [c for c in f.calls("realloc") if c.arg(0) is not None and norm(c.arg(0)) == FDS]
+    for c in rl:
+        asg = [e for e in f.all_elems() if e.is_assign and e.op == "=" and norm(e.kid(0)) == FA]
+        n += 1
+        ok = len(asg) == 1
+        why = "%d assignments to fds_alloc" % len(asg)
+        if ok:
+            a = asg[0]
+            st = A.state_before(a)
+            stc = A.state_before(c)
+            v = A.lin(a.kid(1), st) if st is not None else None
+            sz = A.lin(c.arg(1), stc) if stc is not None else None
+            # on the success edge only
+            succ_only = any(op == "!=" and R == ("c", 0) and Le is not None and Le.strip() is c
+                            for cond, truth in f.edge_conds(a) for op, L, R, Le, _ in cond_atoms(cond, truth))
+            same = v is not None and sz is not None and (sz - v.scale(esz)).is_const() and (sz - v.scale(esz)).k == 0
+            ok = succ_only and same
+            why = "fds_alloc = %s; realloc size %s; element size %d; assigned on realloc's success edge: %s" % (v, sz, esz, succ_only)
+        rep.check(ok, "O8-capacity", "%s: fds_alloc is the element count realloc was asked for, recorded once it succeeded" % f.name, c.where, why,
+                  function=f.name, construct="capacity-recorded")
+    return n
+
+
 def o7_slotrange(prog, rep):
     """The socket table is indexed by descriptor number, and a descriptor has a record exactly when its number is below the
     table's size.  Relational (sa/poly.py) with the size as a ghost quantity that socketlist_getsize answers and a successful
@@ -516,6 +707,8 @@ def run(tier):
         o3(prog, rep)
         o4_o5(prog, rep)
         o7_slotrange(prog, rep)
+        if o8_capacity(prog, rep) < 5:
+            rep.defer_broken("O8-capacity: fewer than 5 obligations found in the function that adds a poll entry")
         o6(prog, rep)
         o6_double(prog, rep)
         # handle consistency of the timer heap: a stale handle makes cancel remove the wrong timer, so a cancelled
